@@ -173,8 +173,9 @@ def gen_spec(rng, cfg, doc, depth):
 
 
 # ---------------------------------------------------------------------------------------------
-def build(doc):
-    """-> (root element, {class name: class}) — fresh objects on every call."""
+def build(doc, objs=None):
+    """-> (root element, {class name: class}) — fresh objects on every call.
+    If `objs` is a dict it is filled with id(spec dict) -> the live object built from it."""
     from statham.schema import elements as E
     from statham.schema.elements import Object
     from statham.schema.property import Property
@@ -218,9 +219,17 @@ def build(doc):
             cd[a] = prop(p)
         c = type(base)(name, (base,), cd, **kwargs(spec["kw"]))
         classes[name] = c
+        if objs is not None:
+            objs[id(spec)] = c
         return c
 
     def el(s):
+        o = el_(s)
+        if objs is not None and s["k"] != "Ref":
+            objs[id(s)] = o
+        return o
+
+    def el_(s):
         k = s["k"]
         if k == "Ref":
             return cls(s["name"])
